@@ -172,6 +172,8 @@ def range_cases(gens, suf, tier, rng):
         return cid
 
     small = []
+    # translations to the type's limits: all pairs (thorough) / the pairs within -5..5 (quick)
+    aspan = 5 if tier == "quick" else span
     for b in genB:
         lo, hi = b["lo"], b["hi"]
         for ty in ALL_TYPES:
@@ -179,10 +181,11 @@ def range_cases(gens, suf, tier, rng):
                 e = genA.get((lo, hi)) if ty == "u64" else b["exp"]
                 add(ty, {"b": "0", "o": lo}, {"b": "0", "o": hi}, "direct", peers, e)
                 small.append((ty, {"b": "0", "o": lo}, {"b": "0", "o": hi}, e))
-            add(ty, {"b": "MAX", "o": lo - span}, {"b": "MAX", "o": hi - span}, "direct", peers)
-            add(ty, {"b": "MIN", "o": lo + span}, {"b": "MIN", "o": hi + span}, "direct", peers)
-            small.append((ty, {"b": "MAX", "o": lo - span}, {"b": "MAX", "o": hi - span}, None))
-            small.append((ty, {"b": "MIN", "o": lo + span}, {"b": "MIN", "o": hi + span}, None))
+            if max(abs(lo), abs(hi)) <= aspan:
+                add(ty, {"b": "MAX", "o": lo - aspan}, {"b": "MAX", "o": hi - aspan}, "direct", peers)
+                add(ty, {"b": "MIN", "o": lo + aspan}, {"b": "MIN", "o": hi + aspan}, "direct", peers)
+                small.append((ty, {"b": "MAX", "o": lo - aspan}, {"b": "MAX", "o": hi - aspan}, None))
+                small.append((ty, {"b": "MIN", "o": lo + aspan}, {"b": "MIN", "o": hi + aspan}, None))
     # huge ranges (up to 2^62 elements) and whole-type ranges of the narrow types; more peers
     many = peers + [7, 16, 64]
     P62 = 1 << 62
